@@ -691,3 +691,129 @@ Proof.
   vm_compute. split; reflexivity.
 Qed.
 End C07_translated.
+
+(* ====================================================================================================
+   Columns of lines of every length, and the remembered column after a motion that succeeds without
+   moving the cursor (MotColProps.v; added after the seeded changes C07g / C07h).
+
+   ren.c diverts a line with multi-byte characters to ren_position_reorder() only when it has at most
+   xlim = 256 characters (terminator included); every longer line is laid out by the plain loop of
+   ren_position(), whatever it contains.  MotDefs.ren_position IS that loop and has no length limit,
+   so the column statements below (and C07_jk, C07_col0_caret_dollar_bar, C07_landing, which are
+   stated with ren_pos / ren_off) speak about lines of every length.
+   ==================================================================================================== *)
+From NV Require Import MotColProps.
+
+(* the column of a character = the sum of the cell widths of the characters before it *)
+Theorem C07_column_first : forall l, 0 < slen l -> ren_pos l 0 = 0.
+Proof. exact ren_pos_zero. Qed.
+Print Assumptions C07_column_first.
+
+Theorem C07_column_next : forall l i, 0 <= i -> i + 1 < slen l ->
+  ren_pos l (i + 1) = ren_pos l i + ren_cwid (chr_at l i) (ren_pos l i).
+Proof. exact ren_pos_succ. Qed.
+Print Assumptions C07_column_next.
+
+(* a tab ends at the next multiple of 8; the width of any other character does not depend on the column *)
+Theorem C07_tab_width : forall c pos, b0 c = 9%N -> 0 <= pos ->
+  ren_cwid c pos = 8 - pos mod 8 /\ (pos + ren_cwid c pos) mod 8 = 0.
+Proof. exact cwid_tab. Qed.
+Print Assumptions C07_tab_width.
+
+Theorem C07_width_column_independent : forall c p q, b0 c <> 9%N -> ren_cwid c p = ren_cwid c q.
+Proof. exact cwid_nontab. Qed.
+Print Assumptions C07_width_column_independent.
+
+(* the offset j, k and N| go to (ren_off, before ren_noeol): the character whose cells cover the
+   wanted column p -- its column is <= p and the next character starts beyond p; when p is at or
+   beyond the end of the line it is the last character of the list (the terminator, which ren_noeol
+   then replaces by the character before it) *)
+Theorem C07_column_to_offset : forall l p, 0 <= p -> 0 < slen l ->
+  let o := ren_off l p in
+  0 <= o < slen l /\ ren_pos l o <= p /\ (o + 1 < slen l -> p < ren_pos l (o + 1)).
+Proof. exact ren_off_covering. Qed.
+Print Assumptions C07_column_to_offset.
+
+(* ... and that description determines the offset *)
+Theorem C07_column_to_offset_determined : forall l p o, 0 <= p -> 0 <= o < slen l ->
+  ren_pos l o <= p -> (o + 1 < slen l -> p < ren_pos l (o + 1)) -> ren_off l p = o.
+Proof. exact ren_off_unique. Qed.
+Print Assumptions C07_column_to_offset_determined.
+
+(* the remembered column: a successful motion other than j k gives the same state whatever column
+   was remembered before it (with_col s c = s with the remembered column replaced by c) ... *)
+Theorem C07_sticky_column_forgotten : forall b rows a1 a2 k s c r o cl cc pc, is_jk k = false ->
+  vi_motion b rows (v_top s) (v_cl s) (v_cc s) (v_pcol s) (m_has a1 a2) (m_cnt a1 a2) k (v_row s)
+            (ren_noeol (getl b (v_row s)) (v_off s)) = MvOk r o cl cc pc ->
+  do_motion b rows a1 a2 k (with_col s c) = do_motion b rows a1 a2 k s.
+Proof. exact do_motion_col_reset. Qed.
+Print Assumptions C07_sticky_column_forgotten.
+
+(* ... while a failing motion keeps it *)
+Theorem C07_sticky_column_kept_on_failure : forall b rows a1 a2 k s c cl cc, buf_wf b -> cursor_ok b (v_row s) (v_off s) ->
+  vi_motion b rows (v_top s) (v_cl s) (v_cc s) (v_pcol s) (m_has a1 a2) (m_cnt a1 a2) k (v_row s)
+            (ren_noeol (getl b (v_row s)) (v_off s)) = MvFail cl cc ->
+  exists s', do_motion b rows a1 a2 k (with_col s c) = Some s' /\ v_row s' = v_row s /\ v_off s' = v_off s /\ v_col s' = c.
+Proof. exact do_motion_col_kept. Qed.
+Print Assumptions C07_sticky_column_kept_on_failure.
+
+(* the case the code could be tempted to skip: the motion (not j k |) succeeded and the cursor is where
+   it was ($ on the last character, l h w e at an edge, 0 ^ at that offset, + - G _ onto the same line):
+   the remembered column is now the column of the cursor, whatever it was *)
+Theorem C07_unmoved_motion_resets_column : forall b rows a1 a2 k s r o cl cc pc l, buf_wf b -> 0 <= v_off s ->
+  is_jk k = false -> is_bar k = false ->
+  vi_motion b rows (v_top s) (v_cl s) (v_cc s) (v_pcol s) (m_has a1 a2) (m_cnt a1 a2) k (v_row s)
+            (ren_noeol (getl b (v_row s)) (v_off s)) = MvOk r o cl cc pc ->
+  getl b r = Some l ->
+  exists s', do_motion b rows a1 a2 k s = Some s' /\
+             (v_row s' = v_row s -> v_off s' = v_off s -> getl b (v_row s) = Some l /\ v_col s' = ren_pos l (v_off s)).
+Proof. exact unmoved_motion_resets_col. Qed.
+Print Assumptions C07_unmoved_motion_resets_column.
+
+(* what the next j / k does: after ANY successful motion k other than j k |, a following j / k (any
+   count) lands on the character covering the column of the cursor after k; the column remembered
+   before k appears nowhere in the result *)
+Theorem C07_jk_after_motion : forall b rows a1 a2 k a1' a2' k' s r o cl cc pc l, buf_wf b -> 0 <= v_off s ->
+  is_jk k = false -> is_bar k = false -> is_jk k' = true ->
+  vi_motion b rows (v_top s) (v_cl s) (v_cc s) (v_pcol s) (m_has a1 a2) (m_cnt a1 a2) k (v_row s)
+            (ren_noeol (getl b (v_row s)) (v_off s)) = MvOk r o cl cc pc ->
+  getl b r = Some l ->
+  exists s1, do_motion b rows a1 a2 k s = Some s1 /\ v_row s1 = r /\ v_col s1 = ren_pos l (v_off s1) /\
+    forall l', getl b (line_target b rows (v_top s1) (m_has a1' a2') (m_cnt a1' a2') k' r) = Some l' ->
+    exists s2, do_motion b rows a1' a2' k' s1 = Some s2 /\
+      v_row s2 = line_target b rows (v_top s1) (m_has a1' a2') (m_cnt a1' a2') k' r /\
+      v_off s2 = ren_noeol (Some l') (ren_off l' (ren_pos l (v_off s1))) /\
+      v_col s2 = ren_pos l (v_off s1).
+Proof. exact nonjk_then_jk. Qed.
+Print Assumptions C07_jk_after_motion.
+
+(* non-vacuity and the concrete histories, run by the kernel: (row, offset, remembered column) after
+   $ j j / $ j / $ j $ / $ j $ j / $ j l j / $ j <space> j / $ j tc j / 9| j $ k on "abcdefghij" "abc" "ABCDEFGHIJ",
+   and l l l j / l l l j 0 k / l l l j k on "abcdefghij" TAB "x" *)
+Example C07_sticky_histories :
+  lands sticky_witness [Mot 0 Kdollar; Mot 0 Kj; Mot 0 Kj] = Some (2, 9, 9) /\
+  lands sticky_witness [Mot 0 Kdollar; Mot 0 Kj] = Some (1, 2, 9) /\
+  lands sticky_witness [Mot 0 Kdollar; Mot 0 Kj; Mot 0 Kdollar] = Some (1, 2, 2) /\
+  lands sticky_witness [Mot 0 Kdollar; Mot 0 Kj; Mot 0 Kdollar; Mot 0 Kj] = Some (2, 2, 2) /\
+  lands sticky_witness [Mot 0 Kdollar; Mot 0 Kj; Mot 0 Kl; Mot 0 Kj] = Some (2, 2, 2) /\
+  lands sticky_witness [Mot 0 Kdollar; Mot 0 Kj; Mot 0 Kspace; Mot 0 Kj] = Some (2, 2, 2) /\
+  lands sticky_witness [Mot 0 Kdollar; Mot 0 Kj; Mot 0 (Kt [99%N]); Mot 0 Kj] = Some (2, 9, 9) /\
+  lands sticky_witness [Mot 9 Kbar; Mot 0 Kj; Mot 0 Kdollar; Mot 0 Kk] = Some (0, 2, 2) /\
+  lands sticky_tab_witness [Mot 0 Kl; Mot 0 Kl; Mot 0 Kl; Mot 0 Kj] = Some (1, 0, 3) /\
+  lands sticky_tab_witness [Mot 0 Kl; Mot 0 Kl; Mot 0 Kl; Mot 0 Kj; Mot 0 K0; Mot 0 Kk] = Some (0, 0, 0) /\
+  lands sticky_tab_witness [Mot 0 Kl; Mot 0 Kl; Mot 0 Kl; Mot 0 Kj; Mot 0 Kk] = Some (0, 3, 3).
+Proof. exact sticky_examples. Qed.
+
+(* a line of 304 characters (beyond the line limit): "ab", U+6F22 (two columns), 300 "c"; and
+   U+00E9, TAB, "X", 300 "c": 10| / j $ k / $ / 9| / 5| land on the character covering the column *)
+Example C07_long_line_columns :
+  (match getl long_witness 0 with Some l => slen l = 304 | None => False end) /\
+  lands long_witness [Mot 10 Kbar] = Some (0, 8, 9) /\
+  lands long_witness [Mot 0 Kj; Mot 0 Kdollar; Mot 0 Kk] = Some (0, 8, 9) /\
+  lands long_witness [Mot 0 Kdollar] = Some (0, 302, 303) /\
+  lands long_tab_witness [Mot 9 Kbar] = Some (0, 2, 8) /\
+  lands long_tab_witness [Mot 5 Kbar] = Some (0, 1, 4).
+Proof. exact long_examples. Qed.
+
+Example C07_column_witnesses_wf : buf_wf long_witness /\ buf_wf sticky_witness /\ buf_wf sticky_tab_witness.
+Proof. exact long_witness_wf. Qed.
